@@ -123,7 +123,8 @@ def _shard_tensors(
     for tensor in tensors:
         tensor_size = tensor.nbytes
         # Check if adding this tensor would exceed max_shard_size_bytes
-        if current_shard_size + tensor_size > max_shard_size_bytes and current_shard_size > 0:
+        # (never leave a shard empty, but a shard holding only zero-size tensors is not empty)
+        if current_shard_size + tensor_size > max_shard_size_bytes and shards[-1]:
             # Start a new shard
             shards.append([])
             current_shard_size = 0
